@@ -1726,6 +1726,8 @@ def c13(tier):
         if got is None:
             continue
         t5, k5, n5 = got
+        if j % 3 == 0 and idx <= 9:
+            t5, k5, n5 = gen.between_diagonals(r, list(cat[idx]))      # inside the bounding boxes of two separate shapes
         if j % 2:
             t5, k5, n5 = gen.framed(t5), k5 + 2, n5 + 2
         cases.append((t5, {"idx": idx + 1, "k": k5, "n": n5, "extra": 5, "lx": 0, "ly": 0, "lch": 0}))
